@@ -76,7 +76,7 @@ func c13Expand(tmpl, escPath, query, host, strip, prepend string) (string, bool)
 
 func TestVerifC13Inputs(t *testing.T) {
 	L := ev.Begin("C13", "c13-inputs", "exploration",
-		"14 redirect templates (every form of docs/http-redirects.md and target_test.go, with/without own query, $host, $path with and without separating slash, an own path that needs escaping) x request path (incl. %2F, %20, %C3%A4, strip-prefix-only) x query x host (with/without port) x strip x prepend (plus values of both that need escaping themselves and a strip prefix spelled with an escape) x code (301,302,303,307,308 valid; 299,400,abc invalid) x request kind (plain, websocket upgrade, event stream), served by the real HTTPProxy.ServeHTTP; oracle: status, Location = independent expansion on the escaped path, upstream never contacted; invalid codes never redirect, every code 300..399 answers with that code, path-changing redirects on the own host are issued; self redirects are recognised with the scheme named by X-Forwarded-Proto and, for directly connected clients, with the scheme of the connection. non-trivial = template with $path or $host")
+		"14 redirect templates (every form of docs/http-redirects.md and target_test.go, with/without own query, $host, $path with and without separating slash, an own path that needs escaping) x request path (incl. %2F, %20, %C3%A4, strip-prefix-only) x query x host (with/without port) x strip x prepend (plus values of both that need escaping themselves and a strip prefix spelled with an escape) x code (301,302,303,307,308 valid; 299,400,abc invalid) x request kind (plain, websocket upgrade, event stream) x protocol version (HTTP/1.1, 1.0, 2) x forwarding headers naming another host, served by the real HTTPProxy.ServeHTTP; oracle: status, Location = independent expansion on the escaped path, upstream never contacted; invalid codes never redirect, every code 300..399 answers with that code, path-changing redirects on the own host are issued; self redirects are recognised with the scheme named by X-Forwarded-Proto and, for directly connected clients, with the scheme of the connection. non-trivial = template with $path or $host")
 	paths := []string{"/", "/a", "/a/b", "/a%2Fb", "/a%20b", "/%C3%A4", "/s", "/s/a", "/s/a%2Fb"}
 	queries := []string{"", "q=1", "q=1&r=%2F"}
 	hosts := []string{"foo.com", "foo.com:8080"}
@@ -139,7 +139,18 @@ func TestVerifC13Inputs(t *testing.T) {
 			case 2:
 				hdr = [][2]string{{"Accept", "text/event-stream"}}
 			}
-			d["request_headers"] = hdr
+			// every fourth case carries forwarding headers that name another host and port (what a client can send
+			// as well as a proxy): $host is the host of this request
+			if i%4 == 3 {
+				hdr = append(hdr, [2]string{"X-Forwarded-Host", "evil.example.net"}, [2]string{"X-Forwarded-Port", "8443"}, [2]string{"Forwarded", "for=1.2.3.4; host=evil.example.net"})
+			}
+			// and the protocol version rotates: HTTP/1.1, HTTP/1.0, HTTP/2
+			proto := [][3]interface{}{{"HTTP/1.1", 1, 1}, {"HTTP/1.0", 1, 0}, {"HTTP/2.0", 2, 0}}[(i/3)%3]
+			r.mutate = func(req *http.Request) {
+				req.Proto, req.ProtoMajor, req.ProtoMinor = proto[0].(string), proto[1].(int), proto[2].(int)
+			}
+			defer func() { r.mutate = nil }()
+			d["request_headers"], d["protocol"] = hdr, proto[0]
 			rr, _, h, err := r.do(rawRequest("GET", target, j.host, hdr, nil, false), "10.9.8.7:4711", nil)
 			if err != nil {
 				panic("VERIF-INFRA: " + err.Error())
